@@ -136,6 +136,21 @@ func vfGid() string {
 	return "g" + string(b[:i])
 }
 
+// vfCatch runs f (a call into the code under test) and reports a panic instead of dying:
+// the trace then carries a "panic" event which the trace specification rejects.
+func vfCatch(f func()) (panicked string) {
+	defer func() {
+		if r := recover(); r != nil {
+			panicked = fmt.Sprint(r)
+			if len(panicked) > 200 {
+				panicked = panicked[:200]
+			}
+		}
+	}()
+	f()
+	return ""
+}
+
 func vfPtr(p interface{}) string { return fmt.Sprintf("%p", p) }
 
 func vfSetHook(h func(ev string, kv ...interface{})) { vtHook = h }
